@@ -21,14 +21,15 @@ ID = "C09"
 LEVEL = "model_checking"
 TECHNIQUE = "explicit-state BFS over call/mutation histories of a cached pipeline vs an uncached twin; states = real cache contents; plus cached vs uncached map runs"
 RULE = ("G-DAG pipelines (N<=2 all, N=3 chain/diamond/fan family; decorated with a default or a bound value for the mutation steps) x cached-function subsets {all, each single} "
-        "x cache type {simple, lru, hybrid, disk} x histories up to length L over the alphabet {call(output, cut in arg_combinations, values in {1,2} per name, full_output F/T), "
+        "x cache type {simple, lru, hybrid, disk} x histories up to length L over the alphabet {call(output, cut in arg_combinations, values in {1,2} per name, and the same with each defaulted root argument omitted, full_output F/T), "
         "update_defaults, update_bound, replace(function with another body)}; every step is checked against the uncached twin and against the documented root-argument-key "
-        "cache model. Map part: cached vs uncached map with repeated input values, sequential and deferred executor")
+        "cache model. quick: L=2 without mutations, and L=3 for the default/bound-decorated N=2 pipelines where the third step directly follows a mutation "
+        "(call; mutation; call); thorough: L=3 everywhere. Map part: cached vs uncached map with repeated input values, sequential and deferred executor")
 ASSUMPTIONS = ["a cached pipeline and its uncached twin are rebuilt from the same spec for every path (no shared state)",
                "the documented key model (key = output name + values of the ROOT arguments) is used only to CLASSIFY a mismatch as the known cache-key design finding; the verdict comes from the uncached twin",
                "HybridCache durations are virtual (time.perf_counter/monotonic patched to +1.0 per read inside pipefunc modules)",
                "disk caches get a private directory (the default, the system temp dir, is shared between unrelated pipelines)"]
-BUDGET = {"quick": 85.0, "thorough": 900.0}
+BUDGET = {"quick": 110.0, "thorough": 900.0}
 
 
 # ------------------------------------------------------------------------------------------------
@@ -208,6 +209,7 @@ class KeyModel:
 # ------------------------------------------------------------------------------------------------
 def call_steps(spec, p, max_vary=3):
     steps = []
+    defaults = gen_dag.pipeline_defaults(spec)
     singles = [o for f in spec["funcs"] for o in f["outs"]]
     for out in singles:
         with contextlib.redirect_stdout(io.StringIO()):
@@ -226,6 +228,14 @@ def call_steps(spec, p, max_vary=3):
                 kw.update(dict(zip(names, vals)))
                 for full in (0, 1):
                     steps.append(["call", out, kw, full])
+                # the same call with a defaulted root argument omitted (each one, and all of them)
+                dn = [a for a in names if a in defaults]
+                for om in ([[a] for a in dn] + ([dn] if len(dn) > 1 else [])):
+                    kw2 = {a: v for a, v in kw.items() if a not in om}
+                    for full in (0, 1):
+                        st = ["call", out, kw2, full]
+                        if st not in steps:
+                            steps.append(st)
     return steps
 
 
@@ -368,7 +378,7 @@ def _equal(a, b, full):
     return a == b
 
 
-def bfs(cfg, depth, acc, with_mutations):
+def bfs(cfg, depth, acc, with_mutations, last_after_mutation_only=False):
     spec = cfg["spec"]
     p0 = gen_dag.build(spec)
     steps = call_steps(spec, p0)
@@ -384,6 +394,8 @@ def bfs(cfg, depth, acc, with_mutations):
         hist = frontier.popleft()
         if len(hist) >= depth:
             continue
+        if last_after_mutation_only and len(hist) == depth - 1 and hist and hist[-1][0] == "call":
+            continue  # quick bound: the deepest step is explored only right after a mutation (call; mutation; call)
         ctx = Ctx(cfg, hist)
         snap = ctx.snapshot()
         try:
@@ -566,10 +578,12 @@ def spec_family(stage):
     if stage == "N1-N2":
         yield from gen_dag.base_specs(1)
         yield from gen_dag.base_specs(2)
-    elif stage == "N2-decorated-mutations":
+    elif stage in ("N2-decorated-mutations", "N2-decorated-mutations-quick"):
+        # quick leaves out the PipeFunc-level default (same code path as the signature default after construction)
+        kinds = ("sigdef", "pfdef", "bound-root", "bound-upstream") if stage == "N2-decorated-mutations" else ("sigdef", "bound-root", "bound-upstream")
         for s in gen_dag.base_specs(2):
             for d in gen_dag.decorations(s):
-                if d["deco"] in ("sigdef", "pfdef", "bound-root", "bound-upstream"):
+                if d["deco"] in kinds:
                     yield d
     elif stage == "N3-family":
         yield from N3_FAMILY
@@ -593,7 +607,8 @@ def plan(tier, seed):
     table = [
         ("N1-N2", ["simple"], 2 if not thorough else 3, False, "each"),
         ("N1-N2", ["lru", "hybrid", "disk"], 2 if not thorough else 3, False, "all" if not thorough else "each"),
-        ("N2-decorated-mutations", ["simple"] if not thorough else ["simple", "lru", "disk"], 2 if not thorough else 3, True, "all"),
+        # depth 3 = call; mutation; call  (the shortest history on which a mutation can make a stored entry stale)
+        ("N2-decorated-mutations" if thorough else "N2-decorated-mutations-quick", ["simple"] if not thorough else ["simple", "lru", "disk"], 3, True, "all"),
         ("N3-family", ["simple"] if not thorough else ["simple", "lru", "hybrid", "disk"], 3, True, "all" if not thorough else "each"),
     ]
     for stage, caches, depth, muts, subsets in table:
@@ -601,7 +616,8 @@ def plan(tier, seed):
             subs = cached_subsets(spec, tier) if subsets == "each" else [[True] * len(spec["funcs"])]
             for cached in subs:
                 for ct in caches:
-                    units.append((f"{stage}-depth{depth}-{'+'.join(caches)}", ("bfs", {"spec": spec, "cached": cached, "cache": ct}, depth, muts)))
+                    units.append((f"{stage}-depth{depth}-{'+'.join(caches)}", ("bfs", {"spec": spec, "cached": cached, "cache": ct}, depth, muts,
+                                                                                stage.endswith("-quick"))))
     if thorough:
         for spec in spec_family("N3-all"):
             units.append(("N3-all-depth2-simple", ("bfs", {"spec": spec, "cached": [True] * 3, "cache": "simple"}, 2, False)))
@@ -628,8 +644,8 @@ def plan(tier, seed):
 def run_unit(unit):
     acc = Acc()
     if unit[0] == "bfs":
-        _, cfg, depth, muts = unit
-        n = bfs(cfg, depth, acc, muts)
+        _, cfg, depth, muts = unit[:4]
+        n = bfs(cfg, depth, acc, muts, bool(unit[4]) if len(unit) > 4 else False)
         acc.stratum("bfs-" + cfg["cache"])
         if all(cfg["cached"]) and cfg["cache"] == "simple" and len(cfg["spec"]["funcs"]) == 3:
             acc.sample({"spec": cfg["spec"], "cached": cfg["cached"], "cache": cfg["cache"], "depth": depth, "step_alphabet": n})
